@@ -55,9 +55,62 @@ def run_case(spec):
                                 'msg': f"callVariant raised {te['type']}: {te['msg']}\n{te['tb'][-700:]}"}]}
 
 
+def files_threads_case(spec):
+    """INPUT clause under --threads: a second GVF file that holds only intronic records of OTHER transcripts (among them the last
+    one in annotation order, whose turn comes while a partial batch may be pending) can only add peptides - CLI runs with
+    --threads 2/3/4 (ppft worker processes) on [A] and on [A, B]."""
+    from harness.monitors import c06
+    from harness.gen import gvfgen
+    rng = random.Random(spec['seed'])
+    n_tx = rng.randint(3, 7)
+    skip = {n_tx - 1} | set(rng.sample(range(n_tx - 1), rng.randint(0, 1)))
+    case = c06.make_case(rng, n_tx, skip)
+    wd = drivers.case_dir('c05t-')
+    viol = []
+    counters = {'cases': 1, 'pairs': 0}
+    try:
+        cv.write_case(case, wd)
+        skipped_tx = {case.ref.genes[i].txs[0].id for i in skip}
+        recs = case.recs()
+        a_recs = [r for r in recs if r.tx.id not in skipped_tx]
+        b_recs = [r for r in recs if r.tx.id in skipped_tx]
+        if not a_recs or not b_recs:
+            return {'skipped': True}
+        gvfgen.write_gvf(f'{wd}/A.gvf', a_recs, 'gSNP', 'small')
+        gvfgen.write_gvf(f'{wd}/B.gvf', b_recs, 'gINDEL', 'small')
+        t = rng.choice([2, 2, 3, 4])
+        outs = []
+        for name, files in (('A', ['A.gvf']), ('AB', ['A.gvf', 'B.gvf'])):
+            out = f'{wd}/{name}.fasta'
+            rc, so, se = common.run_cli(c06.cli_args(wd, [f'{wd}/{x}' for x in files], out, threads=t), timeout=600)
+            if rc is None:
+                return {'skipped': True, 'counters': {'watchdog': 1}}
+            got = c06.seqs_of(out)
+            if rc != 0 or got is None:
+                if 'Failed to finish transcript' in se:
+                    return {'nontrivial': False, 'counters': {'cases': 1, 'tool_timeouts': 1}, 'violations': []}
+                viol.append({'kind': 'tool-crash', 'msg': f'--threads {t} -i {files}: exit {rc}: {se[-300:]}'})
+                return {'nontrivial': False, 'counters': counters, 'violations': viol}
+            outs.append(got)
+        counters['pairs'] = 1
+        counters['threaded_file_pairs'] = 1
+        A, B = outs
+        counters['added_peptides'] = len(B - A)
+        if not A <= B:
+            viol.append({'kind': 'not-monotone',
+                         'msg': f'--threads {t}: adding a file with only intronic records of transcripts {sorted(skipped_tx)} (n_tx={n_tx}) '
+                                f'removed {len(A - B)} peptides of other transcripts: {sorted(A - B)[:5]}'})
+        return {'nontrivial': bool(A), 'feature': ('files-threads', t, n_tx, len(skip)), 'violations': viol, 'counters': counters,
+                'sample': {'kind': 'files-threads', 'threads': t, 'n_tx': n_tx, 'peptides_A': len(A), 'peptides_AB': len(B)}}
+    finally:
+        drivers.rm(wd)
+
+
 def _run_case(spec):
     rng = random.Random(spec['seed'])
     kind = spec['kind']
+    if kind == 'files-threads':
+        return files_threads_case(spec)
     dense = kind in ('records-dense', 'limits-dense')
     sub = {'seed': common.hash64(spec['seed'], 'case'), 'stratum': 'dense' if dense else spec.get('stratum'),
            'min_var': 6, 'max_var': 12}
@@ -233,6 +286,9 @@ def check(rep, tier, seed, specs=None, n_override=None):
             if kind == 'switch':
                 st = ['as', 'fusion_var', 'circ_var', 'circ', 'units'][i % 5]
             specs.append({'kind': kind, 'stratum': st, 'seed': common.hash64('c05', 'fixed' if i < n // 2 else seed, i)})
+        nt = max(4, n // 60)
+        specs += [{'kind': 'files-threads', 'stratum': 'sched', 'seed': common.hash64('c05t', 'fixed' if i < nt // 2 else seed, i)}
+                  for i in range(nt)]
     results, lost = common.shard_run('c05', specs, timeout_s=1800 if quick else 6 * 3600)
     rep.rule = ('paired callVariant executions on one generated input: chains miscleavage 0-1-2-3, min-length 9-7-5, max-length 15-25-40, '
                 'min-mw 800-500-0, or boundary chains whose values are the length / mass of a peptide of the most permissive output (added peptides must '
@@ -240,8 +296,9 @@ def check(rep, tier, seed, specs=None, n_override=None):
                 'off->on (every entry of an added peptide must carry the SECT- / W2F- / ORF identifier); record sets S vs S+{r} and file sets F vs '
                 'F+{f} (context-free cleavage rule; for enumerable inputs an added peptide must not have been demanded without r; dense 6-12 record '
                 'clusters with limits disabled are compared by strict inclusion only); restrictive switches noncanonical-transcripts and '
-                'backsplicing-only give subsets. non-trivial = pair evaluated; distinct = (kind, option, stratum, rule, ...).')
+                'backsplicing-only give subsets; through the CLI with --threads 2/3/4, a second file holding only intronic records of other '
+                'transcripts (the last one in annotation order among them) may only add peptides. non-trivial = pair evaluated; distinct = (kind, option, stratum, rule, ...).')
     rep.absorb(results, lost)
-    for k in ('pairs', 'added_peptides', 'strict_pairs', 'boundary_chains'):
+    for k in ('pairs', 'added_peptides', 'strict_pairs', 'boundary_chains', 'threaded_file_pairs'):
         if not rep.counters.get(k):
             rep.inconclusive.append(f'monitor {k} had zero evaluations')
